@@ -21,44 +21,31 @@ Proof. intros H. split; [exact (remote_ip_tcp ip H)|split; [exact (remote_ip_udp
 Section Entry.
   Variable geo_cc : bytes -> option bytes.
   Variable geo_asn : bytes -> option N.
-  (* the GeoIP database answers every lookup of an IP address (no lookup error) *)
-  Definition geo_total : Prop :=
-    forall ip, is_ip ip -> geo_cc ip <> None /\ geo_asn ip <> None.
 
-  Lemma geo_lookup_total ip : geo_total -> is_ip ip -> exists cc asn, geo_lookup geo_cc geo_asn ip = Some (cc, asn).
-  Proof.
-    intros G I. destruct (G ip I) as [H1 H2]. unfold geo_lookup.
-    destruct (geo_cc ip) as [cc|]; [|contradiction].
-    destruct (bytes_eqb cc cc_unk); [eauto|].
-    destruct (geo_asn ip) as [a|]; [eauto|contradiction].
-  Qed.
-
-  (* an accepted socket whose peer address is an IP address - whatever its family and form - enters
-     the classification *)
+  (* an accepted socket whose peer address is an IP address - whatever its family and form, and
+     whatever the GeoIP database answers or fails to answer - enters the classification *)
   Lemma ip_peer_accepted peer ip phantom :
-    geo_total -> remote_ip peer = Some ip -> is_ip ip ->
+    remote_ip peer = Some ip ->
     exists k, conn_entry geo_cc geo_asn peer phantom = EAccept k /\ k_v4 k = is_v4 phantom.
   Proof.
-    intros G R I. unfold conn_entry. rewrite R.
-    destruct (geo_lookup_total ip G I) as [cc [asn E]]. rewrite E. eexists. split; reflexivity.
+    intros R. unfold conn_entry. rewrite R. destruct (geo_lookup geo_cc geo_asn ip) as [cc asn].
+    eexists. split; reflexivity.
   Qed.
 
   Variable wrap : tid -> bytes -> wres.
   Variable drain_cap : nat.
 
   Lemma handle_accepted peer ip phantom D tracked ts script fin :
-    geo_total -> remote_ip peer = Some ip -> is_ip ip ->
+    remote_ip peer = Some ip ->
     handle geo_cc geo_asn wrap drain_cap peer phantom D tracked ts script fin =
     match fin with
     | None => run wrap drain_cap D tracked ts script
     | Some (tf, e) => run_end wrap drain_cap D tracked ts script tf e
     end.
   Proof.
-    intros G R I. unfold handle. destruct (ip_peer_accepted peer ip phantom G R I) as [k [E _]]. rewrite E. reflexivity.
+    intros R. unfold handle. destruct (ip_peer_accepted peer ip phantom R) as [k [E _]]. rewrite E. reflexivity.
   Qed.
 
-  (* the only way to an immediate return (= immediate close by the caller) is a peer address that is
-     not an IP address, or a failing GeoIP lookup *)
   Lemma handle_reject_iff peer phantom D tracked ts script fin :
     handle geo_cc geo_asn wrap drain_cap peer phantom D tracked ts script fin = [AReturn 0%N] <->
     conn_entry geo_cc geo_asn peer phantom = EReject.
@@ -67,20 +54,16 @@ Section Entry.
     destruct fin as [[tf e]|]; unfold run, run_end in H; discriminate.
   Qed.
 
-  Lemma reject_causes peer phantom :
-    conn_entry geo_cc geo_asn peer phantom = EReject <->
-    remote_ip peer = None \/ exists ip, remote_ip peer = Some ip /\ geo_lookup geo_cc geo_asn ip = None.
-  Proof.
-    unfold conn_entry. destruct (remote_ip peer) as [ip|].
-    - destruct (geo_lookup geo_cc geo_asn ip) as [[cc asn]|] eqn:E; split; intros H; try discriminate; try reflexivity.
-      + destruct H as [H|[ip' [H1 H2]]]; [discriminate|]. inversion H1; subst. rewrite E in H2. discriminate.
-      + right. eauto.
-    - split; intros _; [now left|reflexivity].
-  Qed.
+  (* the only way to an immediate return (= immediate close by the caller) is a peer address that is
+     not an IP address (a pipe in a unit test) *)
   Lemma immediate_return_iff peer phantom D tracked ts script fin :
     handle geo_cc geo_asn wrap drain_cap peer phantom D tracked ts script fin = [AReturn 0%N] <->
-    (remote_ip peer = None \/ exists ip, remote_ip peer = Some ip /\ geo_lookup geo_cc geo_asn ip = None).
-  Proof. rewrite handle_reject_iff. apply reject_causes. Qed.
+    remote_ip peer = None.
+  Proof.
+    rewrite handle_reject_iff. unfold conn_entry. destruct (remote_ip peer) as [ip|].
+    - destruct (geo_lookup geo_cc geo_asn ip). split; discriminate.
+    - split; reflexivity.
+  Qed.
 End Entry.
 
 Section Final.
@@ -90,11 +73,11 @@ Section Final.
   Variable geo_cc : bytes -> option bytes.
   Variable geo_asn : bytes -> option N.
 
-  (* C03's headline statement for the whole handler, addresses included *)
+  (* C03's headline statement for the whole handler, addresses and GeoIP included *)
   Theorem every_ip_peer_no_reaction :
     forall (tbl : list pfx) (R : registry) (tracked : nat) (ts : list tid) (drain_cap : nat) (D : N)
            (script : list (N * bytes)) (peer : raddr) (ip phantom : bytes),
-      geo_total geo_cc geo_asn -> remote_ip peer = Some ip -> is_ip ip ->
+      remote_ip peer = Some ip ->
       prefix_table_wfb tbl = true ->
       paced 0%N script ->
       ~ presents_tag reveal mark tbl R (stream_of (heard D script)) ->
@@ -102,19 +85,17 @@ Section Final.
       only_reads_until D tr /\
       (forall tau, (tau < D)%N -> read_by tr tau = arrived_by script tau).
   Proof.
-    intros tbl R tracked ts cap D script peer ip phantom G Rm I Hwf Hp Hn. cbv zeta.
-    rewrite (handle_accepted geo_cc geo_asn _ cap peer ip phantom D tracked ts script None G Rm I).
+    intros tbl R tracked ts cap D script peer ip phantom Rm Hwf Hp Hn. cbv zeta.
+    rewrite (handle_accepted geo_cc geo_asn _ cap peer ip phantom D tracked ts script None Rm).
     apply no_tag_no_reaction; assumption.
   Qed.
 
-  (* two connections that differ only in their addresses (peer: IPv4 in either form, IPv6, TCP or
-     UDP address object; phantom: IPv4 or IPv6) are handled identically *)
   Theorem peer_address_irrelevant :
-    forall (wrap : tid -> bytes -> wres) drain_cap D tracked ts script fin peer1 peer2 ip1 ip2 phantom1 phantom2,
-      geo_total geo_cc geo_asn ->
-      remote_ip peer1 = Some ip1 -> is_ip ip1 -> remote_ip peer2 = Some ip2 -> is_ip ip2 ->
+    forall (wrap : tid -> bytes -> wres) drain_cap D tracked ts script fin peer1 peer2 ip1 ip2 phantom1 phantom2
+           (geo_cc' : bytes -> option bytes) (geo_asn' : bytes -> option N),
+      remote_ip peer1 = Some ip1 -> remote_ip peer2 = Some ip2 ->
       handle geo_cc geo_asn wrap drain_cap peer1 phantom1 D tracked ts script fin =
-      handle geo_cc geo_asn wrap drain_cap peer2 phantom2 D tracked ts script fin.
+      handle geo_cc' geo_asn' wrap drain_cap peer2 phantom2 D tracked ts script fin.
   Proof.
     intros. rewrite (handle_accepted _ _ _ _ peer1 ip1), (handle_accepted _ _ _ _ peer2 ip2); auto.
   Qed.
@@ -122,7 +103,7 @@ Section Final.
   Theorem every_ip_peer_close_answered_at_once :
     forall (tbl : list pfx) (R : registry) (tracked : nat) (ts : list tid) (drain_cap : nat) (D : N)
            (script : list (N * bytes)) (tf : N) (e : rerr) (peer : raddr) (ip phantom : bytes),
-      geo_total geo_cc geo_asn -> remote_ip peer = Some ip -> is_ip ip ->
+      remote_ip peer = Some ip ->
       prefix_table_wfb tbl = true ->
       paced_until 0%N script tf -> (tf < D)%N ->
       ~ presents_tag reveal mark tbl R (stream_of script) ->
@@ -130,8 +111,22 @@ Section Final.
       only_reads_until_peer_close D tf e tr /\
       (forall tau, read_by tr tau = arrived_by script tau).
   Proof.
-    intros tbl R tracked ts cap D script tf e peer ip phantom G Rm I Hwf Hp Htf Hn. cbv zeta.
-    rewrite (handle_accepted geo_cc geo_asn _ cap peer ip phantom D tracked ts script (Some (tf, e)) G Rm I).
+    intros tbl R tracked ts cap D script tf e peer ip phantom Rm Hwf Hp Htf Hn. cbv zeta.
+    rewrite (handle_accepted geo_cc geo_asn _ cap peer ip phantom D tracked ts script (Some (tf, e)) Rm).
     apply peer_close_answered_at_once; assumption.
   Qed.
 End Final.
+
+(* the randomised deadline: every draw gives a deadline in [5 s, 10 s), distinct draws give distinct
+   deadlines, and every millisecond value of that range is the deadline of some draw *)
+Lemma deadline_draw_range r : (r < 5000)%N -> (5000 <= deadline_of_draw r < 10000)%N.
+Proof. unfold deadline_of_draw. lia. Qed.
+Lemma deadline_draw_inj r1 r2 : deadline_of_draw r1 = deadline_of_draw r2 -> r1 = r2.
+Proof. unfold deadline_of_draw. lia. Qed.
+Lemma deadline_draw_onto d : (5000 <= d < 10000)%N -> exists r, (r < 5000)%N /\ deadline_of_draw r = d.
+Proof. intros H. exists (d - 5000)%N. unfold deadline_of_draw. lia. Qed.
+Lemma deadline_draw r1 r2 d :
+  ((r1 < 5000)%N -> (5000 <= deadline_of_draw r1 < 10000)%N) /\
+  (deadline_of_draw r1 = deadline_of_draw r2 -> r1 = r2) /\
+  ((5000 <= d < 10000)%N -> exists r, (r < 5000)%N /\ deadline_of_draw r = d).
+Proof. split; [apply deadline_draw_range|split; [apply deadline_draw_inj|apply deadline_draw_onto]]. Qed.
